@@ -74,6 +74,8 @@ class CmaStrategy(HoloPyObject):
                  parallel='auto'):
         self.npixels = npixels
         self.popsize = popsize
+        self.resample_pixels = resample_pixels
+        self.parent_fraction = parent_fraction
         if resample_pixels:
             self.new_pixels = self.npixels
         else:
